@@ -155,7 +155,7 @@ func checkLine(line, ns string) {
 }
 
 var names = []string{"a", "a.b-c_d", "a/b", "a b", "a\tb", "a$b", "$a", "$", "9z", "A.Z", "caf\xc3\xa9.x", "\xe9", "a\xaa\xb5\xc0\xffz"}
-var values = []string{"1", "0", "-1", "+1", "1.5", ".5", "1e3", "1E-2", "0x1p-2", "inf", "-Inf", "1_0", "0x10", "nan", "NaN", "", "1..2", "1e", "abc", "--1", "1 "}
+var values = []string{"1", "0", "-1", "+1", "1.5", ".5", "1e3", "1E-2", "0x1p-2", "inf", "-Inf", "1_0", "0x10", "nan", "NaN", "", "1..2", "1e", "abc", "--1", "1 ", "a:b", "::1"}
 var types = []string{"c", "g", "ms", "h", "s", "", "m", "mx", "x", "cc", "C", "msx", "hx", "hms", "sx", "gg"}
 var fields = []string{"@0.5", "@1", "@2", "@0", "@-1", "@nan", "@inf", "@", "@x", "#a", "#a,b:c", "#,a,,", "#", "c:xyz", "T1", ""}
 
